@@ -100,7 +100,7 @@ CHECKS = {
         engine="E1 sched",
         category="model_checking",
         technique="explicit-state model checking of the real handlers over loop shapes x requested iterations x max-jumps settings, all delivery orders; frontier emptied = termination",
-        text="Self loop, 2-4 stage cycles, loop with side branch and fan-in, forward jump over a diamond, and EVERY loop body that is a single-root/single-sink DAG on 3-5 stages (all 110 up to isomorphism, both declaration orders; 6 stages = 1960 bodies in thorough, VERIF_SEED selecting which sixteenth) x requested iterations 0..limit+2 x _max_jumps in {0,1,2,3,default 10} (workflow- and stage-level) x all delivery orders (+lost ack / sweep in thorough): jumps performed = min(requested, limit); at the limit source TERMINAL and workflow failed; loop body runs once per iteration, everything else once (reference re-arm set computed independently); bypassed stages SKIPPED and never run; every exploration reaches a fixpoint.",
+        text="Self loop, 2-4 stage cycles, loop with side branch and fan-in, forward jump over a diamond, and EVERY loop body that is a single-root/single-sink DAG on 3-5 stages (all 110 up to isomorphism, both declaration orders; 6 stages = 1960 bodies in thorough, VERIF_SEED selecting which thirty-second) x requested iterations 0..limit+2 x _max_jumps in {0,1,2,3,default 10} (workflow- and stage-level) x all delivery orders (+lost ack / sweep in thorough): jumps performed = min(requested, limit); at the limit source TERMINAL and workflow failed; loop body runs once per iteration, everything else once (reference re-arm set computed independently); bypassed stages SKIPPED and never run; every exploration reaches a fixpoint.",
         design_ref="5 (C15)",
         note=E1_NOTE,
     ),
